@@ -23,6 +23,7 @@ def Instr.mapKR (T : Ast → Ast) (ρ : Option Pos → String → String) : Inst
   | .compName f b => .compName f b
   | .attrAssign p => .attrAssign p
   | .globalDecl ns => .globalDecl ns
+  | .nonlocalDecl ns => .nonlocalDecl ns
   | .addReturn => .addReturn
   | .addImport n => .addImport n
   | .addStar a b c => .addStar a b c
